@@ -505,6 +505,52 @@ def ob_empty_bodies(run, mir, rp):
         ob.inconclusive(str(e))
 
 
+def ob_ternary_operands(run, mir, rp):
+    ob = run.ob("ternary-operands-are-expressions", "E2", "is_valid_in_ternary(then, el) - the test that lets an if/else be emitted as a Python "
+                "conditional expression - is true exactly when neither branch is a block or a raise statement (both would be statements in "
+                "expression position)", ["is_valid_in_ternary"])
+    try:
+        fn = e2.find1(mir, file="src/generate/convert/control_flow.rs", name="is_valid_in_ternary")
+        ex = Exec(mir, max_paths=2000)
+        st = State()
+        import convkern
+        kinds = ex.enum_variants("NodeTy")
+        dt, de = z3.Int("then.kind"), z3.Int("el.kind")
+        mk = lambda tag, d: e2.mk_struct(convkern.AST_RS, "ASTTy", {"pos": Opq(z3.Const(tag + ".pos", Val), "Position"),
+                                                                   "node": Opq(z3.Const(tag + ".node", Val), "NodeTy", {("d",): d}),
+                                                                   "ty": Opq(z3.Const(tag + ".ty", Val), "Option<Name>")})
+        then, el = mk("then", dt), mk("el", de)
+        ends = e2.run_kernel(run, ex, fn, [Ref(ex.new_cell(st, then)), Ref(ex.new_cell(st, el))], st)
+        stmt = lambda d: z3.Or(d == kinds.index("Block"), d == kinds.index("Raise"))
+        claims = []
+        for p in ends:
+            if p.kind != "return" or not z3.is_bool(p.ret):
+                raise Unsupported(f"unexpected path end {p}")
+            claims.append(z3.Implies(conj(p.cond), p.ret == z3.And(z3.Not(stmt(dt)), z3.Not(stmt(de)))))
+        hyp = [dt >= 0, dt < len(kinds), de >= 0, de < len(kinds)]
+
+        def replay(model):
+            progs = ["def f(x: Int) -> Int raise [Exception] => if x < 0 then raise Exception(\"negative\") else x\nprint(f(1))",
+                     "def f(x: Int) -> Int raise [Exception] => if x > 0 then x else raise Exception(\"negative\")\nprint(f(1))",
+                     "def f(x: Int) -> Int =>\n    if x > 0 then\n        def y := x\n        y\n    else\n        0\nprint(f(1))"]
+            bad = []
+            for src in progs:
+                for ann in (False, True):
+                    stt, out = rp.transpile(src, ann)
+                    if stt != "OK":
+                        continue
+                    try:
+                        ast.parse(out)
+                    except SyntaxError as e:
+                        bad.append((src, out, e.msg))
+            if bad:
+                return {"reproduced": True, "role": "ternary-operand-statement", "detail": f"{bad[0][0]!r} is emitted as {bad[0][1][:160]!r}: SyntaxError {bad[0][2]}"}
+            return {"reproduced": False, "detail": f"{len(progs)} programs with statement branches are emitted as valid Python"}
+        e2.prove(run, ob, ex, hyp, conj(claims), {"then.kind": dt, "el.kind": de}, replay)
+    except Unsupported as e:
+        ob.inconclusive(str(e))
+
+
 def run(run):
     mir = e2.load_mir(run)
     rp = common.Replay()
@@ -519,6 +565,7 @@ def run(run):
     ob_printer(run, mir, rp)
     ob_empty_bodies(run, mir, rp)
     ob_literals(run, mir, rp)
+    ob_ternary_operands(run, mir, rp)
     rp.close()
     # an operand that needs delimiting and does not get it can be a syntax error too (`a == not b`): the C10 machinery with
     # "Python refuses the text" as the only failure
